@@ -83,5 +83,14 @@ CHECKS["C18"] = {
     "quick": {"checks": 1500, "timeout": 900, "env": {"VERIF_C18_OPS": 8}},
     "thorough": {"checks": 30000, "timeout": 3400, "shards": 8, "env": {"VERIF_C18_OPS": 30}},
 }
+CHECKS["C16"] = {
+    "pkg": "./props/c16",
+    "level": "exploration",
+    "technique": "property-based round-trip testing (rapid) with an independent DER walker/verifier as oracle, OpenSSL cross-check on a sample",
+    "level_text": "Harness-built third-party-style SignedData (unsorted signed attributes, extra attributes incl. unknown OIDs, several certificates and CRLs in any order, 1-3 SignerInfos, RSA PKCS#1 / RSA-PSS / ECDSA, NULL vs absent digest parameters, nested countersignatures and RFC 3161 tokens, attached/detached/non-data content) and harness-TSA tokens in many option combinations go through relic's Unmarshal -> Marshal, Detach and timestamp embedding; every signed region located by an independent DER walker must still be present byte-identically and every signature, countersignature and token must still verify with Go crypto (openssl cms -verify on a sample). The PKCS#7 inside relic's own PE, MSI, PowerShell, JAR and catalog outputs (drawn key, digest, options) must carry content-type and message-digest exactly once and consistent with the content, verify over exactly the emitted SET OF bytes under the configured leaf, keep a re-signed catalog's content byte-identical, and survive relic's own round trip byte-identically.",
+    "level_note": "Trusts the harness DER walker/verifier (cross-checked against openssl cms/ts and the Microsoft-signed fixture catalog). BER framing and subjectKeyIdentifier signer ids are excluded because relic's parser refuses them explicitly (no re-encoding happens).",
+    "quick": {"checks": 600, "timeout": 900},
+    "thorough": {"checks": 15000, "timeout": 3400, "shards": 8},
+}
 for _pid in CHECKS:
     NOT_APPLICABLE.pop(_pid, None)
